@@ -524,6 +524,124 @@ pub fn check_wide(case: &WideCase) -> CaseResult {
     }
 }
 
+// ---------------------------------------------------------------------------------------------
+// the overflow log is emitted on the appending thread, inside append: a tracing subscriber that
+// itself appends to the same queue (metrics about logged errors) re-enters append from there
+
+struct ReentrantSub {
+    q: super::c01::Q,
+    log: Arc<EventLog>,
+    nested: Arc<std::sync::atomic::AtomicU32>,
+}
+impl tracing::Subscriber for ReentrantSub {
+    fn enabled(&self, _m: &tracing::Metadata<'_>) -> bool {
+        true
+    }
+    fn new_span(&self, _s: &tracing::span::Attributes<'_>) -> tracing::span::Id {
+        tracing::span::Id::from_u64(1)
+    }
+    fn record(&self, _s: &tracing::span::Id, _v: &tracing::span::Record<'_>) {}
+    fn record_follows_from(&self, _s: &tracing::span::Id, _f: &tracing::span::Id) {}
+    fn event(&self, event: &tracing::Event<'_>) {
+        if *event.metadata().level() == tracing::Level::ERROR {
+            let k = self.nested.fetch_add(1, std::sync::atomic::Ordering::SeqCst);
+            if k < 50 {
+                let id = Id { p: 2, s: k };
+                self.log.push(Ev::AppendStart(id));
+                self.q.append(TestE(id));
+                self.log.push(Ev::AppendEnd(id));
+            }
+        }
+    }
+    fn enter(&self, _s: &tracing::span::Id) {}
+    fn exit(&self, _s: &tracing::span::Id) {}
+}
+
+#[derive(Clone, Debug, Serialize, Deserialize)]
+pub struct ReentrantCase {
+    pub capacity: u8,
+    pub boxed: bool,
+    pub extra: u8,
+}
+
+pub fn check_reentrant(case: &ReentrantCase) -> CaseResult {
+    let cap = case.capacity.clamp(1, 12) as usize;
+    let log = Arc::new(EventLog::default());
+    let gate = Gate::new(false);
+    let stream = BqStream::new(vec![], gate.clone(), log.clone());
+    let (q, handle) = super::c01::build_queue(cap, case.boxed, Duration::from_millis(1), stream);
+    let mut seq = 0u32;
+    // one entry for the writer to hold at the gate, then fill the ring
+    for _ in 0..(cap + 1) {
+        let id = Id { p: 0, s: seq };
+        seq += 1;
+        log.push(Ev::AppendStart(id));
+        q.append(TestE(id));
+        log.push(Ev::AppendEnd(id));
+        if seq == 1 && !gate.wait_blocked(Duration::from_secs(5)) {
+            gate.open();
+            let _ = no_panic("queue-shutdown", || handle.shut_down());
+            return Ok(vec!["inconclusive-timeout"]);
+        }
+    }
+    // the overflow log is limited to one per second process-wide: make sure it can fire now
+    std::thread::sleep(Duration::from_millis(1100));
+    let nested = Arc::new(std::sync::atomic::AtomicU32::new(0));
+    let extra = 1 + (case.extra % 6) as u32;
+    let done = Arc::new(std::sync::atomic::AtomicBool::new(false));
+    let worker = {
+        let (q, log, nested, done) = (q.clone(), log.clone(), nested.clone(), done.clone());
+        std::thread::spawn(move || {
+            let sub = ReentrantSub { q: q.clone(), log: log.clone(), nested };
+            tracing::subscriber::with_default(sub, || {
+                for k in 0..extra {
+                    let id = Id { p: 1, s: k };
+                    log.push(Ev::AppendStart(id));
+                    q.append(TestE(id));
+                    log.push(Ev::AppendEnd(id));
+                }
+            });
+            done.store(true, std::sync::atomic::Ordering::SeqCst);
+        })
+    };
+    let t0 = std::time::Instant::now();
+    while !done.load(std::sync::atomic::Ordering::SeqCst) && t0.elapsed() < Duration::from_secs(10) {
+        std::thread::sleep(Duration::from_millis(1));
+    }
+    if !done.load(std::sync::atomic::Ordering::SeqCst) {
+        // the appender is stuck inside append (it is left behind: it cannot be cancelled)
+        vfail!(
+            "overflow:append-blocked-until-writer-progress",
+            "append on a full queue (capacity {cap}) did not return within 10 s; the overflow log was delivered to a tracing subscriber that appends to the same queue ({} nested append(s) started). Events: {:?}",
+            nested.load(std::sync::atomic::Ordering::SeqCst),
+            log.snapshot().iter().rev().take(6).collect::<Vec<_>>()
+        );
+    }
+    let _ = worker.join();
+    gate.open();
+    drop(q);
+    no_panic("queue-shutdown", || handle.shut_down())?;
+    let evs = log.snapshot();
+    let appended: Vec<Id> = evs.iter().filter_map(|e| if let Ev::AppendStart(id) = e { Some(*id) } else { None }).collect();
+    let delivered: Vec<Id> = evs.iter().filter_map(|e| if let Ev::Next(id, _) = e { Some(*id) } else { None }).collect();
+    // the held entry plus the newest `cap` entries, in append order
+    let mut want = vec![appended[0]];
+    want.extend_from_slice(&appended[appended.len() - cap.min(appended.len() - 1)..]);
+    vensure!(
+        delivered == want,
+        "overflow:wrong-survivors",
+        "capacity {cap}, {} appends ({} of them nested inside the overflow log): delivered {delivered:?}, expected the held entry plus the newest {cap}: {want:?}",
+        appended.len(),
+        nested.load(std::sync::atomic::Ordering::SeqCst)
+    );
+    let mut classes: Classes = vec![];
+    if nested.load(std::sync::atomic::Ordering::SeqCst) > 0 {
+        classes.push("append-nested-inside-the-overflow-log");
+        classes.push("nt");
+    }
+    Ok(classes)
+}
+
 pub fn run(ctx: &mut Ctx) {
     ctx.assume("the exact set of survivors is racy by one entry (the writer may already hold the oldest one); only conditions that hold on every schedule are asserted");
     let q = ctx.tier == Tier::Quick;
@@ -595,6 +713,18 @@ pub fn run(ctx: &mut Ctx) {
             .prop_map(|(width, capacity, extra)| WideCase { width, capacity, extra })
         },
         check_wide,
+    );
+    ctx.explore(
+        SubCfg::new(
+            "c09-append-from-inside-the-overflow-log",
+            "full queue (capacity 1-12, writer stalled), the process-wide overflow log limiter allowed to fire (1.1 s pause), then 1-6 appends on a thread whose tracing subscriber reacts to every ERROR event by appending to the SAME queue: the overflow log is emitted inside append, so append re-enters itself. Oracle: every append returns (10 s limit, the stuck thread is left behind), the survivors are the held entry plus the newest `capacity` entries in append order. Non-trivial = a nested append happened",
+            if q { 3 } else { 12 },
+        )
+        .threads(1)
+        .shrink_iters(2)
+        .mandatory(&["append-nested-inside-the-overflow-log"]),
+        || (1u8..12, any::<bool>(), any::<u8>()).prop_map(|(capacity, boxed, extra)| ReentrantCase { capacity, boxed, extra }),
+        check_reentrant,
     );
 }
 
